@@ -36,7 +36,7 @@
 EXTENDS WirePrims
 
 CONSTANTS PVs,            \* protocol versions enumerated (the composite layer only distinguishes < 3 and >= 3)
-          Families,       \* subset of {"scalar","list","set","map","tuple","udt","vector","nest2","nest3","range","tz"}
+          Families,       \* subset of {"scalar","list","set","map","tuple","udt","vector","nest2","nest3","range","tz","wide"}
           TopScalars,     \* scalar types enumerated alone, with their full boundary alphabet
           ElemScalars,    \* element types of depth-1 lists / sets
           KeyScalars, ValScalars,   \* depth-1 maps
@@ -376,9 +376,10 @@ T_nest3 == {ListOf(t) : t \in Inner2} \cup {MapOf(TText, t) : t \in Inner2} \cup
 Pick(f, S) == IF f \in Families THEN S ELSE {}
 RangeSeed == <<"range">>
 TzSeed    == <<"tz">>
+WideSeed  == <<"wide">>
 Types == Pick("scalar", {Sc(s) : s \in TopScalars}) \cup Pick("list", T_list) \cup Pick("set", T_set) \cup Pick("map", T_map)
          \cup Pick("tuple", T_tuple) \cup Pick("udt", T_udt) \cup Pick("vector", T_vector)
-         \cup Pick("nest2", T_nest2) \cup Pick("nest3", T_nest3) \cup Pick("range", {RangeSeed}) \cup Pick("tz", {TzSeed})
+         \cup Pick("nest2", T_nest2) \cup Pick("nest3", T_nest3) \cup Pick("range", {RangeSeed}) \cup Pick("tz", {TzSeed}) \cup Pick("wide", {WideSeed})
 
 \* what a protocol version can carry at the top level: no null element in a v1/v2 collection ([short] lengths are
 \* unsigned); vectors exist only in Cassandra releases that speak v3+ (nested ones are always in the >= 3 format)
@@ -423,6 +424,64 @@ TzShapes ==
                     <<<<Some(Instant(x)), Some(1)>>, <<Some(Instant(y)), Some(-1)>>>>>> :
                       y \in {r \in Readings : Instant(r) # Instant(x)}} : x \in Readings}    \* distinct instants are distinct keys
 
+\* ------------------------------------------------------------------ wide integers: beyond TLC's 32 bits, byte-wise
+\* x = [neg |-> BOOLEAN, mag |-> the magnitude, big endian, without leading zero bytes] (zero: neg = FALSE, mag = <<>>).
+\* IntegerSerializer = BigInteger.toByteArray: "the two's-complement representation ... the minimum number of bytes
+\* required ... including at least one sign bit".  Computed on the bytes, all arithmetic within 0..255:
+\*   positive: the magnitude, preceded by 0x00 iff the top bit of its first byte is set;
+\*   negative: the two's complement of the magnitude on its own length (invert every byte, add 1 with carry from the
+\*             last byte), preceded by 0xFF iff the top bit of the first byte of the result is clear.
+\* LongSerializer (bigint / counter): the same number in exactly 8 bytes (sign extension); a number that needs more
+\* than 8 bytes is outside the type's range and must be refused.  DecimalSerializer: [int] scale ++ varint(unscaled).
+InvB(s) == Tup([i \in 1..Len(s) |-> 255 - s[i]])
+RECURSIVE IncB(_)
+IncB(s) == IF Len(s) = 0 THEN <<>>                         \* a carry out of the first byte is dropped
+           ELSE LET f == SubSeq(s, 1, Len(s) - 1) l == s[Len(s)] IN
+                IF l < 255 THEN f \o <<l + 1>> ELSE IncB(f) \o <<0>>
+TwosC(s) == IncB(InvB(s))
+VarW(x) == IF Len(x.mag) = 0 THEN <<0>>
+           ELSE IF ~x.neg THEN (IF x.mag[1] >= 128 THEN <<0>> \o x.mag ELSE x.mag)
+           ELSE LET r == TwosC(x.mag) IN IF r[1] < 128 THEN <<255>> \o r ELSE r
+FitsLong(x) == Len(VarW(x)) <= 8
+LongW(x) == LET v == VarW(x) IN Tup([i \in 1..(8 - Len(v)) |-> IF x.neg THEN 255 ELSE 0]) \o v
+\* decoder: the sign is the top bit; a negative number's magnitude is the two's complement again
+RECURSIVE StripZ(_)
+StripZ(s) == IF Len(s) > 0 /\ s[1] = 0 THEN StripZ(Tail(s)) ELSE s
+DecVarW(b) == IF b[1] < 128 THEN [neg |-> FALSE, mag |-> StripZ(b)] ELSE [neg |-> TRUE, mag |-> StripZ(TwosC(b))]
+
+TVarint == Sc("varint")
+EncWide(t, v, p) ==
+    CASE t = TVarint -> VarW(v)
+      [] t = Sc("bigint") -> LongW(v)
+      [] t = Sc("decimal") -> I32(v[1]) \o VarW(v[2])
+      [] t = ListOf(TVarint) -> CLen(p, Len(v)) \o Cat([i \in 1..Len(v) |-> LET b == VarW(v[i][1]) IN CLen(p, Len(b)) \o b])
+RECURSIVE RdWList(_, _, _, _)
+RdWList(b, q, n, p) == IF n = 0 THEN R(<<>>, q)
+                       ELSE LET l == RdCLen(b, q, p) x == DecVarW(SubSeq(b, l.p, l.p + l.v - 1))
+                                rest == RdWList(b, l.p + l.v, n - 1, p) IN R(<<Some(x)>> \o rest.v, rest.p)
+ParseWide(t, b, p) ==
+    CASE t = TVarint -> R(DecVarW(b), Len(b) + 1)
+      [] t = Sc("bigint") -> R(DecVarW(b), Len(b) + 1)
+      [] t = Sc("decimal") -> R(<<Signed(SubSeq(b, 1, 4)), DecVarW(SubSeq(b, 5, Len(b)))>>, Len(b) + 1)
+      [] t = ListOf(TVarint) -> LET n == RdCLen(b, 1, p) IN RdWList(b, n.p, n.v, p)
+
+\* magnitudes 2^(8k-1)-1, 2^(8k-1), 2^(8k-1)+1 for k = 1..9 (every byte-length boundary up to 72 bits, incl. int64's) + patterns
+EdgeMags(k) == {Tup([i \in 1..k |-> IF i = 1 THEN 127 ELSE 255]), Tup([i \in 1..k |-> IF i = 1 THEN 128 ELSE 0]),
+                Tup([i \in 1..k |-> IF i = k THEN (IF k = 1 THEN 129 ELSE 1) ELSE IF i = 1 THEN 128 ELSE 0])}
+WMags == UNION {EdgeMags(k) : k \in 1..9}
+         \cup {<<1>>, <<255>>, <<1, 0>>, <<255, 255>>, <<1, 0, 0, 0, 0>>, <<255, 255, 255, 255, 255, 255, 255, 255>>,
+               <<1, 0, 0, 0, 0, 0, 0, 0, 0>>, <<18, 52, 86, 120, 154, 188, 222, 240>>, <<129, 35, 69, 103, 137, 171, 205, 239>>,
+               <<222, 173, 190, 239, 0, 1, 2, 3, 4>>, <<1, 255, 255, 255, 255, 255, 255, 255>>}
+WZero == [neg |-> FALSE, mag |-> <<>>]
+WVals == {WZero} \cup {[neg |-> n, mag |-> m] : n \in BOOLEAN, m \in WMags}
+WFew  == {x \in WVals : x.mag \in {<<>>, <<255>>} \cup EdgeMags(8) \cup EdgeMags(9)}
+\* <<type, value>>
+WideShapes == {<<TVarint, x>> : x \in WVals} \cup {<<Sc("bigint"), x>> : x \in WVals}
+              \cup {<<Sc("decimal"), <<sc, x>>>> : sc \in {0, 2, -3}, x \in WVals}
+              \cup {<<ListOf(TVarint), <<Some(x)>>>> : x \in WVals}
+              \cup {<<ListOf(TVarint), <<Some(x), Some(y)>>>> : x, y \in WFew}
+WideInRange(t, v) == t # Sc("bigint") \/ FitsLong(v)
+
 -----------------------------------------------------------------------------
 VARIABLES ty, pv, val, enc, img, norm, expect
 vars == <<ty, pv, val, enc, img, norm, expect>>
@@ -430,7 +489,7 @@ vars == <<ty, pv, val, enc, img, norm, expect>>
 Init == /\ ty \in Types
         /\ pv = 0 /\ val = <<>> /\ enc = <<>> /\ img = {} /\ norm = <<>> /\ expect = "seed"
 
-Case == /\ expect = "seed" /\ ty \notin {RangeSeed, TzSeed}
+Case == /\ expect = "seed" /\ ty \notin {RangeSeed, TzSeed, WideSeed}
         /\ \E p \in PVs, v \in Vals(ty, 0, FALSE) :
               /\ Admissible(ty, v, p)
               /\ pv' = p /\ val' = v
@@ -452,7 +511,7 @@ RangeCase == /\ expect = "seed" /\ ty = RangeSeed
 \* A result cell that is null ([bytes] of length -1) or empty (length 0).  Null is null for every type.  An empty cell is
 \* the empty string for the string-like types; for every other type the driver documents that it "normally returns None"
 \* (cqltypes: support_empty_values) - the legacy Thrift "empty" value.
-CellCase == /\ expect = "seed" /\ ty \notin {RangeSeed, TzSeed}
+CellCase == /\ expect = "seed" /\ ty \notin {RangeSeed, TzSeed, WideSeed}
             /\ \E p \in PVs, k \in {"null", "empty"} :
                   /\ pv' = p /\ expect' = k
                   /\ norm' = IF k = "empty" /\ IsScalar(ty) /\ Kind(ty) \in {"text", "ascii", "blob"} THEN Some(<<>>) ELSE None
@@ -467,13 +526,24 @@ TzCase == /\ expect = "seed" /\ ty = TzSeed
                 /\ norm' = Norm(sh[1], sh[3])
                 /\ expect' = "ok"
 
-Next == Case \/ RangeCase \/ CellCase \/ TzCase
+\* expect = "wide": like "ok" (the harness treats it so), but judged on the specification by the byte-wise invariants
+\* below; "wraise": a number outside bigint's range must be refused (like "raise")
+WideCase == /\ expect = "seed" /\ ty = WideSeed
+            /\ \E p \in PVs, sh \in WideShapes :
+                  /\ pv' = p /\ ty' = sh[1] /\ val' = sh[2]
+                  /\ IF WideInRange(sh[1], sh[2])
+                     THEN /\ enc' = EncWide(sh[1], sh[2], p) /\ img' = {EncWide(sh[1], sh[2], p)}
+                          /\ norm' = sh[2] /\ expect' = "wide"
+                     ELSE /\ enc' = <<>> /\ img' = {} /\ norm' = <<>> /\ expect' = "wraise"
+
+Next == Case \/ RangeCase \/ CellCase \/ TzCase \/ WideCase
 Spec == Init /\ [][Next]_vars
 
 -----------------------------------------------------------------------------
 \* ------------------------------------------------------------------ invariants on the specification itself
 IsBytes(b) == \A i \in 1..Len(b) : b[i] \in 0..255
-TypeOK == /\ expect \in {"seed", "ok", "raise", "null", "empty"}
+TypeOK == /\ expect \in {"seed", "ok", "raise", "null", "empty", "wide", "wraise"}
+          /\ expect = "wide" => pv \in PVs /\ IsBytes(enc) /\ img = {enc}
           /\ expect = "ok" => pv \in PVs /\ IsBytes(enc) /\ enc \in img /\ \A e \in img : IsBytes(e)
 
 \* the decoder reads every encoding in Cassandra's image back as the normalised value ...
@@ -504,6 +574,24 @@ WidthRule ==
 RaiseJustified ==
     expect = "raise" => \E n \in RangeTypes, w \in Wrappers : \E x \in Probes(RangeBits(n)) :
                             Wrap(w, n, x) = <<ty, val>> /\ ~InRange(RangeBits(n), x)
+
+\* ------------------------------------------------------------------ wide integers
+WideNums(t, v) == CASE t = Sc("decimal") -> {v[2]} [] t = ListOf(TVarint) -> {v[i][1] : i \in 1..Len(v)} [] OTHER -> {v}
+WideRoundTrip == expect = "wide" => ParseWide(ty, enc, pv) = R(norm, Len(enc) + 1)
+\* no redundant leading 0x00 / 0xFF; -2^(8k-1) is exactly the k bytes 80 00 .. 00; 2^(8k-1) needs k+1 bytes
+WideMinimal == expect = "wide" => \A x \in WideNums(ty, val) :
+                   /\ MinimalVar(VarW(x))
+                   /\ (x.mag \in UNION {{Tup([i \in 1..k |-> IF i = 1 THEN 128 ELSE 0])} : k \in 1..9}) =>
+                          (IF x.neg THEN VarW(x) = x.mag ELSE VarW(x) = <<0>> \o x.mag)
+\* below 2^31 the byte-wise definition is the arithmetic one (BigInteger.bitLength) used for the 32-bit alphabets
+WideAgrees32 == expect = "wide" => \A x \in WideNums(ty, val) :
+                   (Len(x.mag) <= 3 \/ (Len(x.mag) = 4 /\ x.mag[1] < 128)) =>
+                       VarW(x) = VarInt(IF x.neg THEN -Unsigned(x.mag) ELSE Unsigned(x.mag))
+WideLong == /\ expect = "wide" /\ ty = Sc("bigint") => Len(enc) = 8 /\ FitsLong(val) /\ DecVarW(enc) = val
+            /\ expect = "wraise" => ty = Sc("bigint") /\ Len(VarW(val)) > 8
+Witness_WideNeg8 == ~(expect = "wide" /\ ty = TVarint /\ val.neg /\ Len(enc) = 8)
+Witness_Wide9    == ~(expect = "wide" /\ ty = Sc("decimal") /\ Len(enc) = 13)
+Witness_WideRaise == ~(expect = "wraise")
 
 \* ------------------------------------------------------------------ vacuity witnesses (TLC must VIOLATE each)
 \* a reading with an offset is encoded as its instant: the same bytes as the naive reading of wall - offset
